@@ -219,34 +219,46 @@ def rule_e(R, ctx):
                     "redone is not deterministic; whether order matters is a value question", cs.loc())
 
 
-def rule_f(R, ctx):
+def rule_f(R, ctx, rid="C12.f"):
     Y = ctx.yrs
-    R.rule("C12.f", "R-FIXPOINT redone chains: in ItemPtr::redo every lookup `get_item_clean_start(<x>.redone)` of an item other "
-                    "than `self` (re-created parent, left/right neighbour traces) is loop-carried — the id looked up on the next "
-                    "round depends on the item found on this one (flow-sensitive taint from the call's result back to its own "
-                    "argument) — so a chain of re-creations is followed to its end; only self's own `redone` is a single hop")
-    fn = Y.fn("yrs::block::ItemPtr::redo")
-    v = FnView(fn)
-    sites = []
-    for cs in fn.calls_to("yrs::block_store::BlockStore::get_item_clean_start"):
-        if len(cs.args) > 1 and term_has_field(v.arg(cs, 1, 16), "Item.redone"):
-            sites.append(cs)
-    R.floor("C12.f", "lookups of a redone id in ItemPtr::redo", len(sites), 5)
-    n_loop = 0
-    for cs, site in ordinal_sites(sites):
-        t = simp_deep(v.arg(cs, 1, 16))
-        own = t[0] == "field" and t[1].endswith("Item.redone") and simp_deep(t[2])[0] == "param" and simp_deep(t[2])[1] == 1
-        if own:
-            R.ob("C12.f", fn, site, True, "self.redone: the item was already redone, its replacement is returned (single hop)", cs.loc(), nontrivial=False)
+    R.rule(rid, "R-FIXPOINT redone chains: every lookup `get_item_clean_start(<x>.redone)` in the crate (ItemPtr::redo: re-created "
+                "parent, left/right neighbour traces; Store::follow_redone: the walk sticky indexes and undo use) is loop-carried — "
+                "the id looked up on the next round depends on the item found on this one (flow-sensitive taint from the call's "
+                "result back to its own argument) — so a chain of re-creations is followed to its end; only `self.redone` in "
+                "ItemPtr::redo is a single hop")
+    total = 0
+    carried = 0
+    for p, fn in sorted(Y.fns.items()):
+        if not fn.mir or "{closure" in p:
             continue
-        lc = F.loop_carried(fn, cs, 1)
-        n_loop += 1 if lc else 0
-        R.ob("C12.f", fn, site, lc,
-             "redone id %s is re-read from the item found by the previous round" % sshow(t, 4) if lc else
-             "the lookup of %s is a single hop: after two re-creations (undo, redo, undo) the item is placed relative to a stale "
-             "incarnation" % sshow(t, 5), cs.loc())
-    R.floor("C12.f", "loop-carried redone lookups", len(sites) - 1 if len(sites) else 0, 4)
-
+        cands = [cs for cs in fn.calls_to("yrs::block_store::BlockStore::get_item_clean_start")]
+        if not cands:
+            continue
+        v = FnView(fn)
+        sites = [cs for cs in cands if len(cs.args) > 1 and term_has_field(v.arg(cs, 1, 16), "Item.redone")]
+        # a function that reads some item's `redone` and looks ids up, but not through a term we can see, is examined too
+        reads_redone = any(isinstance(st["rv"].get("use"), dict) and isinstance(st["rv"]["use"].get("c", st["rv"]["use"].get("m")), dict) and
+                           any(isinstance(x, str) and x.endswith("Item.redone") for x in st["rv"]["use"].get("c", st["rv"]["use"].get("m")).get("p", []))
+                           for i, j, st in fn.stmts())
+        if not sites and not reads_redone:
+            continue
+        if not sites:
+            sites = cands
+        for cs, site in ordinal_sites(sites):
+            total += 1
+            t = simp_deep(v.arg(cs, 1, 16))
+            own = p.endswith("ItemPtr::redo") and t[0] == "field" and t[1].endswith("Item.redone") and simp_deep(t[2])[0] == "param" and simp_deep(t[2])[1] == 1
+            if own:
+                R.ob(rid, fn, site, True, "self.redone: the item was already redone, its replacement is returned (single hop)", cs.loc(), nontrivial=False)
+                continue
+            lc = F.loop_carried(fn, cs, 1)
+            carried += 1 if lc else 0
+            R.ob(rid, fn, site, lc,
+                 "redone id %s is re-read from the item found by the previous round" % sshow(t, 4) if lc else
+                 "the lookup of %s is a single hop: after two re-creations (undo, redo, undo) the caller is handed a stale "
+                 "incarnation" % sshow(t, 5), cs.loc())
+    R.floor(rid, "lookups of a redone id", total, 6)
+    R.floor(rid, "loop-carried redone lookups", carried, 5)
 
 def rule_g(R, ctx):
     Y = ctx.yrs
